@@ -5,9 +5,32 @@
 //! Case line and observation as in c02 (`yverif::prog`). Oracle: when the script installs the EXIT
 //! trap (`probe 99`) up front, the trap's probe appears exactly once and last in the trace.
 
-use yverif::prog::{Gen, parse_case, render, run_case, sx_script};
+use yverif::prog::{Gen, observe_real, parse_case, render, run_case, sx_script};
 use yverif::proto::{Opts, emit, quiet_panics};
 use yverif::rng::Rng;
+
+/// Every `REAL_EVERY`-th case also runs on the real `yash3` binary (through `yash_cli::main`, its
+/// argument parsing and `run_as_shell_process`): the observation must be the same.
+fn real_leg(case: &str, obs: &str) -> Option<String> {
+    let (seed, lines) = parse_case(case)?;
+    let real = observe_real(seed, &lines);
+    if real == "NO-BINARY" {
+        return Some("FAIL:real-binary-could-not-be-built".into());
+    }
+    if real != obs {
+        return Some(format!("FAIL:real-binary-differs({})", real.replace(['\t', '\n'], " ")));
+    }
+    None
+}
+
+fn oracle_all(case: &str, obs: &str, with_real: bool) -> String {
+    if with_real {
+        if let Some(f) = real_leg(case, obs) {
+            return f;
+        }
+    }
+    oracle(case, obs)
+}
 
 fn oracle(case: &str, obs: &str) -> String {
     if !case.contains("((trapexit ((probe 99)))") || !obs.starts_with("trace=") {
@@ -43,7 +66,7 @@ fn main() {
     let (fixed, only) = o.fixed_cases();
     for c in &fixed {
         let obs = run_case(c);
-        emit(c, &obs, &oracle(c, &obs));
+        emit(c, &obs, &oracle_all(c, &obs, true));
     }
     if only {
         return;
@@ -70,6 +93,7 @@ fn main() {
         let surface = g.rng.next() % 1000;
         let case = format!("{} {}", surface, sx_script(&lines));
         let obs = run_case(&case);
-        emit(&case, &obs, &oracle(&case, &obs));
+        let with_real = k % (if o.thorough() { 40 } else { 10 }) == 0;
+        emit(&case, &obs, &oracle_all(&case, &obs, with_real));
     }
 }
